@@ -317,6 +317,86 @@ def fam_chunk_rule(chk, da):
                                       "model_mismatches": len(mism)}
 
 
+def fam_dtype_rules(chk, da):
+    """Functions whose advertised dtype / shape is a RULE of (input dtype, method / option) rather than read off a block: every
+    combination of a small dtype list with the options is built, every block is executed and compared with .chunks / .dtype, and the
+    assembled result with .shape / .dtype.  Also `expand_dims` with axis tuples in every order (positions refer to the result)."""
+    import itertools as _it
+    dts = ["bool", "i1", "u1", "i4", "i8", "f2", "f4", "f8"]
+    methods = ["linear", "lower", "higher", "midpoint", "nearest"]
+    calls = []
+    for m in methods:
+        calls.append((f"percentile[{m}]", lambda x, m=m: da.percentile(x, [25, 50], method=m)))
+        calls.append((f"percentile-scalar-q[{m}]", lambda x, m=m: da.percentile(x, 50, method=m)))
+        calls.append((f"quantile[{m}]", lambda x, m=m: da.quantile(x.reshape(2, -1), 0.5, axis=1, method=m)))
+        calls.append((f"quantile-list-q[{m}]", lambda x, m=m: da.quantile(x.reshape(2, -1), [0.25, 0.5], axis=1, method=m)))
+        calls.append((f"nanquantile[{m}]", lambda x, m=m: da.nanquantile(x.reshape(2, -1), 0.5, axis=1, method=m)))
+    for nm in ["mean", "var", "std", "sum", "prod", "cumsum", "cumprod", "median-all"]:
+        calls.append((nm, (lambda x, nm=nm: getattr(da, nm)(x, axis=0)) if nm != "median-all" else (lambda x: da.median(x, axis=0))))
+    calls += [("true_divide", lambda x: x / x), ("floor_divide", lambda x: x // (x + x.dtype.type(1))), ("sqrt", lambda x: da.sqrt(x)),
+              ("arctan2", lambda x: da.arctan2(x, x)), ("round", lambda x: da.round(x)), ("clip", lambda x: da.clip(x, 1, 3)),
+              ("where-scalar", lambda x: da.where(x > x.dtype.type(1), x, 0)), ("where-float", lambda x: da.where(x > x.dtype.type(1), x, 0.5)),
+              ("diff", lambda x: da.diff(x)), ("dot", lambda x: da.dot(x, x)), ("mean-keepdims", lambda x: x.mean(keepdims=True)),
+              ("average-weights", lambda x: da.average(x, weights=x)), ("astype-f4-sum", lambda x: x.astype("f4").sum()),
+              ("power-2", lambda x: x ** 2), ("power-half", lambda x: x ** 0.5), ("abs", lambda x: abs(x)), ("negative-or-invert", lambda x: ~x if x.dtype.kind in "biu" else -x),
+              ("argmax", lambda x: da.argmax(x, axis=0)), ("count_nonzero", lambda x: da.count_nonzero(x)), ("histogram", lambda x: da.histogram(x, bins=3, range=(0, 6))[0]),
+              ("bincount", lambda x: da.bincount(x, minlength=4) if x.dtype.kind in "iu" else None), ("cov", lambda x: da.cov(x.reshape(2, -1))),
+              ("linspace-like", lambda x: da.linspace(0, 1, 5, dtype=x.dtype, chunks=2)), ("full_like", lambda x: da.full_like(x, 3)),
+              ("isin", lambda x: da.isin(x, [1, 2])), ("searchsorted", lambda x: da.searchsorted(da.sort(x) if hasattr(da, "sort") else x, x)),
+              ("var-ddof", lambda x: da.var(x, ddof=1)), ("nanmean", lambda x: da.nanmean(x)), ("ptp", lambda x: da.ptp(x, axis=0))]
+    for dt, (name, f) in _it.product(dts, calls):
+        a = (np.arange(8) % 5).astype(dt)
+        chk.count("dtype-rule:" + name.split("[")[0])
+        chk.case(("dtype-rule", name, dt), nontrivial=True)
+        try:
+            with warnings.catch_warnings():
+                warnings.simplefilter("ignore")
+                y = f(da.from_array(a, chunks=(3, 3, 2)))
+                if y is None:
+                    continue
+                problems, nb = check_blocks(y)
+                got = np.asarray(y.compute(scheduler="sync"))
+        except Exception as e:  # noqa: BLE001
+            chk.count("dtype-rule:raises")      # construction / computation errors are C01's and C08's business
+            continue
+        if got.dtype != y.dtype or got.shape != tuple(y.shape):
+            problems = problems + [f"computed result has dtype {got.dtype} shape {got.shape}, advertised {y.dtype} {tuple(y.shape)}"]
+        if problems:
+            chk.violation(f"{name} on {dt}: " + problems[0], {"call": name, "dtype": dt, "data": a.tolist(), "chunks": (3, 3, 2), "problems": problems[:4]},
+                          signature={"class": "dtype-rule", "call": name.split("[")[0], "dtype_kind": np.dtype(dt).kind,
+                                     "what": "dtype" if "dtype" in problems[0] else "shape"})
+        else:
+            chk.traces_validated += 1
+    # expand_dims: all axis tuples (any order, negative positions) for 1-D and 2-D inputs with several blocks
+    for shape, chunks in (((4,), ((1, 3),)), ((3, 4), ((2, 1), (1, 3)))):
+        a = np.arange(int(np.prod(shape))).reshape(shape)
+        nd = len(shape)
+        for k in (1, 2, 3):
+            for ax in _it.permutations(range(nd + k), k):
+                for neg in (False, True):
+                    axes = tuple(p - (nd + k) if neg and i % 2 == 0 else p for i, p in enumerate(ax))
+                    chk.count("expand-dims-tuple")
+                    chk.case(("expand-dims", shape, axes), nontrivial=True)
+                    want = np.expand_dims(a, axes)
+                    try:
+                        with warnings.catch_warnings():
+                            warnings.simplefilter("ignore")
+                            y = da.expand_dims(da.from_array(a, chunks=chunks), axes)
+                            problems, nb = check_blocks(y)
+                            got = np.asarray(y.compute(scheduler="sync"))
+                    except Exception as e:  # noqa: BLE001
+                        chk.violation(f"expand_dims(axis={axes}) raises {type(e).__name__}: {str(e)[:80]}", {"shape": shape, "chunks": chunks, "axis": axes},
+                                      signature={"class": "expand-dims-tuple", "what": "raises"})
+                        continue
+                    if tuple(y.shape) != want.shape or got.shape != want.shape or not np.array_equal(got, want):
+                        problems = problems + [f"advertised shape {tuple(y.shape)}, computed {got.shape}, NumPy {want.shape}"]
+                    if problems:
+                        chk.violation(f"expand_dims(axis={axes}): " + problems[0], {"shape": shape, "chunks": chunks, "axis": axes, "problems": problems[:4]},
+                                      signature={"class": "expand-dims-tuple", "what": "shape"})
+                    else:
+                        chk.traces_validated += 1
+
+
 def replay(path):
     print(open(path).read())
 
@@ -333,6 +413,7 @@ def run(chk: Check):
     chk.run_proofs()
     import c01
     fam_chunk_rule(chk, da)
+    fam_dtype_rules(chk, da)
     for tag, prog, sources in c01.CORPUS:
         if tag in ("F17", "F20", "F25", "F33c"):
             run_program(chk, da, prog, sources, None, True)
